@@ -424,6 +424,25 @@ func (tg *textGen) hostile(idx int64, r *Rng, d asm.Dialect, cfg asm.Config) (st
 				text = mutateTokens(r, text)
 				class = "repo-warrior-token-mutated"
 			}
+		case x < 16 && d == asm.D88 && r.Chance(1, 3):
+			// '88: pairs of consecutive lines with the same mnemonic whose operands mirror each other (the first
+			// legal, the second not, or the other way round): each line is judged on its own
+			var b strings.Builder
+			for k, n := 0, 1+r.Intn(4); k < n; k++ {
+				op := []string{"add", "sub", "mov", "cmp", "jmp", "jmz", "jmn", "djn", "spl", "slt", "dat"}[r.Intn(11)]
+				if r.Bool() {
+					op = strings.ToUpper(op)
+				}
+				x, y := r.Intn(9), r.Intn(9)
+				ma, mb := []string{"#", "", "@", "<", "$"}[r.Intn(5)], []string{"", "#", "$", "@", "<"}[r.Intn(5)]
+				l1 := fmt.Sprintf("%s %s%d, %s%d\n", op, ma, x, mb, y)
+				l2 := fmt.Sprintf("%s %s%d, %s%d\n", op, mb, y, ma, x)
+				if r.Bool() {
+					l1, l2 = l2, l1
+				}
+				b.WriteString(l1 + l2)
+			}
+			text, class = b.String(), "88-mirror-twins"
 		case x < 16 && r.Bool():
 			// lines whose operands sit at the ends of the assembler's number range (the cost of a call follows the
 			// size of the input, not the magnitude of its numbers - whatever the core size)
